@@ -72,6 +72,9 @@ def run(ctx):
     from . import fixtures
     use_fixture = cfg.draw(100 if ctx.tier == "quick" else 25) == 0
     feat = C.draw_features(ctx, base)
+    if ctx.s("deep").draw(10) == 0:
+        feat["deep_types"] = True  # type chains of 9-12 levels (own stream: the other draws are unchanged)
+        ctx.probes["deep_type_chain"] += 1
     ops = ctx.s("ops")
     allow = cfg.chance(1, 2)
     if use_fixture:
